@@ -400,6 +400,22 @@ func newInstanceByType(typ reflect.Type) reflect.Value {
 	}
 }
 
+// checkEmbeddedPointers returns an error when fromField is a promoted field of the struct input
+// that sits behind a nil embedded pointer: this is only known at request time, and
+// reflect.Value.FieldByName would panic.
+func checkEmbeddedPointers(fromField string, input reflect.Value) error {
+	sf, ok := input.Type().FieldByName(fromField)
+	if !ok || len(sf.Index) == 1 {
+		return nil
+	}
+
+	if _, err := input.FieldByIndexErr(sf.Index); err != nil {
+		return fmt.Errorf("field mapping from a struct field, but an embedded pointer on the way to it is nil. field=%v, inputType=%v", fromField, input.Type())
+	}
+
+	return nil
+}
+
 func checkAndExtractFromField(fromField string, input reflect.Value) (reflect.Value, error) {
 	f := input.FieldByName(fromField)
 	if !f.IsValid() {
@@ -647,6 +663,10 @@ func takeOne(inputValue reflect.Value, inputType reflect.Type, from string) (tak
 		}
 		fallthrough
 	case reflect.Struct:
+		if err = checkEmbeddedPointers(from, inputValue); err != nil {
+			return nil, nil, err
+		}
+
 		f, err = checkAndExtractFromField(from, inputValue)
 		if err != nil {
 			return nil, nil, err
